@@ -210,13 +210,25 @@ Broken == {"", "<", ">", "\"", "width=\"", "width=\"1e\" ", "d=\"M\" ", "d=\" \"
            "</g>", "<svg>", "<path d=\"M0 0L1\"/>", "stroke-dasharray=\"a b\" ", "transform=\"matrix(1 2)\" ", "x=\"1ex\" ", "<style>", "<defs>"}
 DocMut(d) == {SubSeq(d, 1, i) : i \in 0..Len(d)} \cup {DelAt(d, i) : i \in 1..Len(d)} \cup {DupAt(d, i) : i \in 1..Len(d)}
              \cup {[d EXCEPT ![i] = b] : i \in 1..Len(d), b \in Broken}
-\* (the document index is kept in acc so that the module needs no further variable)
-DInit == /\ acc \in {<<i>> : i \in 1..Len(Docs)}
+\* <style> selectors: 2 to 4 compounds (type or *) joined by child (>) and descendant (blank) combinators, applied to a
+\* document with a rect directly under the root, a rect in a <g> and a circle two levels down - selectors that are longer
+\* than the element is deep, and selectors that name the root in the middle, included
+SelCompounds == {"*", "svg", "g", "rect"}
+SelCombs == {">", " ", " > "}
+SelOfLen(k) == {[i \in 1..(2 * k - 1) |-> IF i % 2 = 1 THEN c[(i + 1) \div 2] ELSE o[i \div 2]] :
+                   c \in [1..k -> SelCompounds], o \in [1..(k - 1) -> SelCombs]}
+Selectors == SelOfLen(2) \cup SelOfLen(3) \cup SelOfLen(4)
+SelDoc(sel) == <<"<svg width=\"10\" height=\"10\">", "<style>">> \o sel \o
+               <<"{fill:red}", "</style>", "<rect x=\"1\" y=\"1\" width=\"2\" height=\"2\"/>", "<g>",
+                 "<rect width=\"1\" height=\"1\"/>", "<g>", "<circle r=\"1\"/>", "</g>", "</g>", "</svg>">>
+\* (the document index is kept in acc so that the module needs no further variable; index Len(Docs)+1 = the selector family)
+DInit == /\ acc \in {<<i>> : i \in 1..(Len(Docs) + 1)}
          /\ str = <<>> /\ st = InitSt /\ hist = <<>> /\ ph = "cmd" /\ cmd = "" /\ lastk = "none"
          /\ p0 = <<0, 0>> /\ sp = <<0, 0>> /\ lc = <<0, 0>> /\ lq = <<0, 0>> /\ prev = ""
 DNext == UNCHANGED tvars2
 DSpec == DInit /\ [][DNext]_tvars2
-DEmit == PrintT("@@" \o ToJson([kind |-> "doc", doc |-> acc[1], muts |-> DocMut(Docs[acc[1]])]))
+DEmit == PrintT("@@" \o ToJson([kind |-> "doc", doc |-> acc[1],
+                                 muts |-> IF acc[1] <= Len(Docs) THEN DocMut(Docs[acc[1]]) ELSE {SelDoc(sel) : sel \in Selectors}]))
 
 \* ---- printing: rules of comparison (header for the driver) -------------------------------------------
 Precision == 8     \* canvas.Precision: significant digits (ToSVG) / decimals (ToPDF, ToPS)
